@@ -188,10 +188,11 @@ def replay_behaviour(hist, geom, jax, jnp):
                 objs[x] = geom.MultiImage({k: v * float(st["den"]) for k, v in pooled.items()}, pooled.D, pooled.is_torus)
                 approx = (st["den"] & (st["den"] - 1)) != 0
             elif op == "Component":
-                if si % 2 == 0 or objs[x].get_n_leading() != 1:
-                    objs[x] = objs[x].get_component(st["comp"], st["T"])
+                comp = st["comp"] if (st["n"] == 1 and si % 2 == 0) else slice(st["comp"], st["comp"] + st["n"])
+                if st["batched"]:
+                    objs[x] = objs[x].batch_get_component(comp, st["T"])
                 else:
-                    objs[x] = objs[x].get_component(slice(st["comp"], st["comp"] + 1), st["T"])
+                    objs[x] = objs[x].get_component(comp, st["T"])
             else:
                 raise RuntimeError("unknown op " + op)
         except RuntimeError:
